@@ -97,7 +97,11 @@ def number_history(kinds, start=0):
             pn = (pn + 1) & 0xFFFFFFFF
             seen_any = True
             it["pn"] = pn
-        elif k.startswith("FS:"):
+        elif k == "XF0":
+            pn = (pn + 1) & 0xFFFFFFFF
+            seen_any = True
+            it["pn"] = pn
+        elif k.startswith("FS:") or k == "XFS":
             it["pn"] = pn if seen_any else start
         elif k == "EOS":
             pn = (start - 1) & 0xFFFFFFFF
@@ -109,7 +113,7 @@ def number_history(kinds, start=0):
 def guided_walk(rng, fam, m, maxlen):
     """random walk choosing only units the model still allows -> accepted history"""
     hist = [{"k": "SH"}]
-    alpha = [k for k in fam.kinds() if k not in ("FOREIGN", "SH2")]
+    alpha = [k for k in fam.kinds() if k not in ("FOREIGN", "SH2", "SH3", "XF0", "XFS")]
     start = rng.choice([0, 0, 2, 100, 2 ** 32 - 2, 2 ** 32 - 4])
     target = rng.randrange(2, maxlen)
     for _ in range(200):
@@ -150,7 +154,7 @@ def neighbours(rng, fam, hist, count):
             k = rng.choice(alpha)
             pos = rng.randrange(len(h) + 1)
             it = {"k": k}
-            if k in ("PIC", "F0") or k.startswith("FS:"):
+            if k in ("PIC", "F0", "XF0", "XFS") or k.startswith("FS:"):
                 it["pn"] = rng.choice([0, 1, (h[pos - 1].get("pn") or 0) if pos else 0, ((h[pos - 1].get("pn") or 0) + 1) & 0xFFFFFFFF if pos else 0])
             h.insert(pos, it)
             if rng.random() < 0.5:
@@ -159,7 +163,7 @@ def neighbours(rng, fam, hist, count):
             pos = rng.randrange(len(h))
             k = rng.choice(alpha)
             it = {"k": k}
-            if k in ("PIC", "F0") or k.startswith("FS:"):
+            if k in ("PIC", "F0", "XF0", "XFS") or k.startswith("FS:"):
                 it["pn"] = h[pos].get("pn") or 0
             h[pos] = it
         elif op == "swap" and len(h) > 2:
@@ -247,6 +251,21 @@ def cases(spec, ctx):
                     h = [dict(v) for v in hist]
                     h[i]["fxy"] = [ax, ay]
                     fx.append(h)
+        # a complete fragmented picture of the other profile, and a repeated header differing only in its last value,
+        # spliced into the accepted walk at every position after the first unit
+        extra = []
+        for pos in range(1, len(hist)):
+            if hist[pos - 1]["k"] in ("F0",) or hist[pos - 1]["k"].startswith("FS:") and hist[pos]["k"].startswith("FS:"):
+                continue
+            h = [dict(v) for v in hist[:pos]] + [{"k": "XF0"}, {"k": "XFS"}] + [dict(v) for v in hist[pos:]]
+            extra.append(number_history([x["k"] for x in h], hist[1].get("pn") or 0 if len(hist) > 1 else 0))
+            if "SH3" in fam.units:
+                extra.append([dict(v) for v in hist[:pos]] + [{"k": "SH3"}] + [dict(v) for v in hist[pos:]])
+        if extra:
+            rng.shuffle(extra)
+            extra = extra[:6]
+            yield {"family": name, "hist_batch": extra, "stratum": "foreign-fragments+last-byte-header"}
+            done += len(extra)
         if fx:
             rng.shuffle(fx)
             fx = fx[:10]
